@@ -133,8 +133,9 @@ def ledger_clean(led, wd_cfg, expect_control_listener=True):
 
 
 class Scenario:
-    def __init__(self, name, script, users=None, tree=None, server_kwargs=None, backend="memory", spy_setup=None, net_setup=None, family=socket.AF_INET, task_salt=None, world_setup=None):
+    def __init__(self, name, script, users=None, tree=None, server_kwargs=None, backend="memory", spy_setup=None, net_setup=None, family=socket.AF_INET, task_salt=None, world_setup=None, manager_factory=None):
         self.name = name
+        self.manager_factory = manager_factory
         import os
 
         # iteration order of the server's task sets (simnet.SeqTask); default: what the environment says, else 0
@@ -153,7 +154,7 @@ class Scenario:
 async def _scenario(loop, sc, k, intervention, after=None):
     """returns dict: iterations, ledger, transcript, extra"""
     spy = spyio.Spy()
-    wd = W.World(loop, sc.users, backend=sc.backend, server_kwargs=sc.server_kwargs, spy=spy, family=sc.family)
+    wd = W.World(loop, sc.users, backend=sc.backend, server_kwargs=sc.server_kwargs, spy=spy, family=sc.family, manager_factory=sc.manager_factory)
     await wd.start()
     res = {"scenario": sc.name, "k": k}
     try:
@@ -224,6 +225,10 @@ async def _scenario(loop, sc, k, intervention, after=None):
             # next read or write): that sleep is finite and not "waiting for further input" - let it pass.  (Not after
             # server.close(): closing leaves no task behind, asleep or not.)
             await asyncio.sleep(30)
+            await loop.settle()
+        if sc.manager_factory is not None:
+            # a user manager of one's own takes its (finite) time, like a backend: let its calls return
+            await asyncio.sleep(2)
             await loop.settle()
         if after is not None:
             await after(ctl, state, res)
